@@ -1,7 +1,11 @@
 #!/bin/bash
-# usage: tools/phaseB.sh name1 name2 ...   names: c02_m1 (first wave, /tmp/mut_c02/deliver/m1) or w2_c02_m1 (second wave, /tmp/mut2_c02/...)
+# usage: tools/phaseB.sh name1 name2 ...   names: c02_m1 (wave 1, /tmp/mut_c02/deliver/m1), w2_c02_m1 (/tmp/mut2_c02/...), w3_c02_m1 (/tmp/mut3_c02/...)
 for n in "$@"; do
-  if [[ "$n" == w2_* ]]; then r=${n#w2_}; x=${r%%_*}; m=${r##*_}; src=/tmp/mut2_$x/deliver/$m; else x=${n%%_*}; m=${n##*_}; src=/tmp/mut_$x/deliver/$m; fi
+  case "$n" in
+    w2_*) r=${n#w2_}; x=${r%%_*}; m=${r##*_}; src=/tmp/mut2_$x/deliver/$m;;
+    w3_*) r=${n#w3_}; x=${r%%_*}; m=${r##*_}; src=/tmp/mut3_$x/deliver/$m;;
+    *) x=${n%%_*}; m=${n##*_}; src=/tmp/mut_$x/deliver/$m;;
+  esac
   P=$(echo $x | tr c C)
   rm -f /verif/scratch/mut/$n/b.txt
   /verif/tools/eval_mutant.sh $P $src $n B > /verif/scratch/mut_$n.B.log 2>&1
